@@ -8,8 +8,8 @@ import numpy as np
 from vlib import core, dom
 
 ID = "C05"
-GEN = ["forecast"]
-PROPS = ["C05_forecast.v"]
+GEN = ["forecast", "reservoir"]
+PROPS = ["C05_forecast.v", "C05_interpolator.v"]
 
 
 def curves(rng):
@@ -131,6 +131,41 @@ def run(ctx):
         if not dom.relclose(float(fit2.M_), mstar, 1e-4):  # the trust-region solver stops a hair inside an active bound
             bad("with tau supplied, M is not the bounded least-squares optimum (clipped sum(r y)/sum(r r))", dict(**inp, tau_given=tau_given, bounds=[lo, hi]),
                 dict(M=float(fit2.M_), optimum=mstar))
+    # ---------------- the lookup object the library itself hands to the forecaster (recovery_factor_interpolator; tie 1:
+    # C05_interpolator.v): stored value at every stored time, 0 before the first, the last stored recovery after the last,
+    # never outside the range of the stored recoveries - for both reservoirs and both recovery modes
+    from vlib import rescorr
+    from bluebonnet.flow import FlowProperties, IdealReservoir, SinglePhaseReservoir
+    tbl = rescorr.shipped_gas(stride=8)
+    for k in range(4 if ctx.quick else 24):
+        tgrid = np.concatenate([[0.0], np.sort(np.exp(rng.uniform(np.log(1e-5), np.log(20.0), int(rng.integers(8, 60)))))]) + (0.0 if k % 2 == 0 else float(rng.uniform(0.5, 30)))
+        nx = int(rng.integers(8, 60))
+        pi, pf = float(rng.uniform(5000, 11000)), float(rng.uniform(500, 3000))
+        for who in ("ideal", "single", "single in-place"):
+            res = IdealReservoir(nx, pf, pi, None) if who == "ideal" else SinglePhaseReservoir(nx, pf, pi, FlowProperties(tbl, pi))
+            res.simulate(tgrid.copy())
+            rec = np.array(res.recovery_factor(density=True) if who.endswith("in-place") else res.recovery_factor(), float)
+            it = res.recovery_factor_interpolator()
+            inp = dict(reservoir=who, nx=nx, pressure_initial=pi, pressure_fracface=pf, times=tgrid.tolist())
+            ev += 1
+            at = np.asarray(it(tgrid), float)
+            if not np.allclose(at, rec, rtol=1e-12, atol=1e-15):
+                bad("recovery_factor_interpolator does not return the stored recovery at the stored times", inp, dict(max_abs_diff=float(np.abs(at - rec).max())))
+            before, after = float(it(tgrid[0] - 1.0)), float(it(tgrid[-1] * 3 + 1.0))
+            if before != 0.0 or after != float(rec[-1]):
+                bad("recovery_factor_interpolator outside the stored times is not (0 before, last stored recovery after)", inp, dict(before=before, after=after, last=float(rec[-1])))
+            qs = rng.uniform(tgrid[0], tgrid[-1], 50)
+            mid = np.asarray(it(qs), float)
+            if not (np.all(mid >= rec.min() - 1e-15) and np.all(mid <= rec.max() + 1e-15)):
+                bad("recovery_factor_interpolator leaves the range of the stored recoveries", inp, dict(min=float(mid.min()), max=float(mid.max()), stored=[float(rec.min()), float(rec.max())]))
+            want = np.interp(qs, tgrid, rec)
+            if not np.allclose(mid, want, rtol=1e-10, atol=1e-14):
+                bad("recovery_factor_interpolator is not the piecewise-linear interpolant of the stored (time, recovery) pairs", inp, dict(max_abs_diff=float(np.abs(mid - want).max())))
+            fo = ForecasterOnePhase(it)
+            Mx, taux = float(dom.loguniform(rng, 1, 1e5)), float(dom.loguniform(rng, 0.5, 500))
+            got = np.asarray(fo.forecast_cum(qs * taux, Mx, taux), float)
+            if not np.allclose(got, Mx * np.interp(qs, tgrid, rec), rtol=1e-9, atol=1e-12 * Mx):
+                bad("forecast built on the reservoir's own interpolator is not M times the stored recovery at time/tau", dict(**inp, M=Mx, tau=taux), dict(max_abs_diff=float(np.abs(got - Mx * np.interp(qs, tgrid, rec)).max())))
     # ---------------- integer-typed production tables (daily counts): the default guess, built from the data, lies below
     # non-integer lower limits and must still be moved inside the bounds, for a free and for a supplied tau
     for k in range(6 if ctx.quick else 60):
@@ -189,6 +224,42 @@ def run(ctx):
                     mstar = min(max(float(r @ y / (r @ r)), bb.M[0]), bb.M[1])
                     if not dom.relclose(float(fo.M_), mstar, 1e-4, 1e-4 * max(1.0, abs(bb.M[0]))):
                         bad("with tau supplied, M is not the bounded least-squares optimum (clipped sum(r y)/sum(r r))", dict(**inp_n, bounds_M=list(bb.M)), dict(M=float(fo.M_), optimum=mstar))
+    # ---------------- the forecaster's public fields re-assigned after construction (bounds tightened after a first fit with the
+    # defaults, another recovery curve put in): the next fit / forecast must use the CURRENT fields
+    for k in range(6 if ctx.quick else 40):
+        names = list(crv)
+        rf, rf_other = crv[names[k % len(names)]], crv[names[(k + 1) % len(names)]]
+        M, tau = dom.loguniform(rng, 1e1, 1e5), dom.loguniform(rng, 1.0, 1e4)
+        tt = np.linspace(tau / 50, float(rng.uniform(1.0, 2.5)) * tau, int(rng.integers(50, 90)))
+        y = M * np.asarray(rf(tt / tau), float)
+        fo = ForecasterOnePhase(rf_other) if k % 2 else ForecasterOnePhase(rf_other, Bounds(M=(M / 1e3, M * 1e3), tau=(tau / 1e3, tau * 1e3)))
+        with warnings.catch_warnings():
+            warnings.simplefilter("ignore")
+            try:
+                fo.fit(tt, y)            # an earlier fit with the first settings
+            except Exception:  # noqa: BLE001, S110
+                pass
+            fo.rf_curve = rf
+            new_b = Bounds(M=(M * 0.2, M * 0.6), tau=(tau * 0.3, tau * 0.8))    # excludes the generating parameters: active bounds
+            fo.bounds = new_b
+            inp_r = dict(curve=names[k % len(names)], M=M, tau=tau, first_bounds="default" if k % 2 else "wide", bounds_assigned_after_construction=dict(M=list(new_b.M), tau=list(new_b.tau)))
+            ev += 1
+            try:
+                fo.fit(tt, y)
+                if not (new_b.M[0] <= fo.M_ <= new_b.M[1] and new_b.tau[0] <= fo.tau_ <= new_b.tau[1]):
+                    bad("after assigning new bounds to the forecaster, the fitted M / tau lie outside the configured bounds", inp_r, dict(M=float(fo.M_), tau=float(fo.tau_)))
+                tg = tau * 0.5
+                fo.fit(tt, y, tau=tg)
+                r = np.asarray(rf(tt / tg), float)
+                mstar = min(max(float(r @ y / (r @ r)), new_b.M[0]), new_b.M[1])
+                if fo.tau_ != tg or not dom.relclose(float(fo.M_), mstar, 1e-4):
+                    bad("after assigning new bounds / another recovery curve to the forecaster, a fit with tau supplied does not return the bounded least-squares optimum for the current fields",
+                        dict(**inp_r, tau_given=tg), dict(M=float(fo.M_), optimum=mstar, tau=float(fo.tau_)))
+                got = np.asarray(fo.forecast_cum(tt, M, tau), float)
+                if not np.allclose(got, y, rtol=1e-12, atol=0):
+                    bad("after assigning another recovery curve to the forecaster, forecast_cum is not M times the current curve at time/tau", inp_r, dict(max_abs_diff=float(np.abs(got - y).max())))
+            except Exception as e:  # noqa: BLE001
+                bad("fit fails after new (well-formed) bounds were assigned to the forecaster", inp_r, repr(e)[:200])
     # ---------------- Bounds validation and guess regularisation
     for k in range(60 if ctx.quick else 1500):
         lo, hi = sorted(rng.uniform(-5, 5, 2))
